@@ -30,6 +30,7 @@ type l2Loop struct {
 	failable func(c *Call) bool
 	extra    func() []l2Stim
 	onStep   func() *core.Violation
+	weight   func(c *Call) int // weight of completing a parked call (default 6)
 	steps    int
 }
 
@@ -54,7 +55,11 @@ func (l *l2Loop) run(maxSteps int, done func() bool) *core.Violation {
 		}
 		for _, c := range l.s.Pending() {
 			c := c
-			st = append(st, l2Stim{"ok " + c.Key, 6, func() {
+			w := 6
+			if l.weight != nil {
+				w = l.weight(c)
+			}
+			st = append(st, l2Stim{"ok " + c.Key, w, func() {
 				l.s.Complete(c, nil)
 				r.Logf("step %d: %s -> ok", l.s.Step, c.Key)
 			}})
